@@ -34,19 +34,21 @@ theorem good_not_scopePanic {m : String} (h : Good (.internal m)) : ¬ ScopePani
   · exact h.2.1 rfl
   · exact h.2.2.1 rfl
 
-/-- the four panics of the object / environment primitives: `ThunkEnv::data` on an environment whose
+/-- the five panics of the object / environment primitives: `ThunkEnv::data` on an environment whose
     data is not set, `get_layer` with a bad index, `layer.base_env.unwrap()` in
-    `get_object_layer_env`, `field.expr.unwrap()` in `find_object_field_thunk` -/
+    `get_object_layer_env`, `field.expr.unwrap()` in `find_object_field_thunk`, and the `unwrap()` of
+    the thunk of a visible field (deep evaluation, manifestation, equality, `std.mapWithKey`) -/
 def ObjPanic (m : String) : Prop :=
   m = "env data not set" ∨ m = "bad layer index" ∨ m = "layer without base env" ∨
-  m = "field without expression"
+  m = "field without expression" ∨ m = "visible field without thunk"
 
 theorem good_not_objPanic {m : String} (h : Good (.internal m)) : ¬ ObjPanic m := by
-  rintro (rfl | rfl | rfl | rfl)
+  rintro (rfl | rfl | rfl | rfl | rfl)
   · exact h.2.2.2.1 rfl
   · exact h.2.2.2.2.1 rfl
   · exact h.2.2.2.2.2.1 rfl
-  · exact h.2.2.2.2.2.2 rfl
+  · exact h.2.2.2.2.2.2.1 rfl
+  · exact h.2.2.2.2.2.2.2 rfl
 
 /-- **C09 (run time), one evaluator task.** From a well-scoped store, a task whose expression (if
     it evaluates one) is well scoped in a sound static view of its environment never ends in a
@@ -147,7 +149,7 @@ theorem C09_eval_request_keeps_scoped (cfg : Cfg) (fuel : Nat) (t : TId) (st : S
 /-! ### Towards C01 on the evaluator model: more panic sites that are never reached -/
 
 /-- **C01 (evaluator model), part.** For every closed program accepted by the analyzer, every frame
-    limit and fuel, the run never ends in one of the three scoping panics nor in one of the four
+    limit and fuel, the run never ends in one of the three scoping panics nor in one of the five
     panics of the object / environment primitives (`ObjPanic`).  The store invariant `Scoped` also
     says: every object layer that has an assert or a field without environment of its own has a
     base environment, a field without thunk has an expression, and the static part of an object
@@ -177,11 +179,16 @@ theorem C01_eval_request_no_internal_error_partial (cfg : Cfg) (fuel : Nat) (t :
   · exact good_not_scopePanic this.1 hm
   · exact good_not_objPanic this.1 hm
 
-/-- number of arguments of a builtin -/
+/-- number of arguments of a builtin (`std.sort`, `std.set`: with `keyF`) -/
 def builtinArity : Builtin → Nat
-  | .length | .type_ => 1
-  | .trace | .objectFieldsEx | .map | .makeArray => 2
-  | .objectHasEx => 3
+  | .length | .type_ | .all | .any | .toString => 1
+  | .trace | .objectFieldsEx | .map | .makeArray | .filter | .flatMap | .mapWithIndex | .mapWithKey | .join
+  | .range | .member | .count | .equals | .compare | .primitiveEquals | .assertEqual | .sort | .set => 2
+  | .objectHasEx | .foldl | .foldr | .filterMap => 3
+
+/-- `n` arguments are right for the builtin: `std.sort` and `std.set` also come without `keyF` -/
+def builtinArityOk (b : Builtin) (n : Nat) : Prop :=
+  n = builtinArity b ∨ ((b = .sort ∨ b = .set) ∧ n = 1)
 
 def exprsLength : Exprs → Nat
   | .nil => 0
@@ -213,7 +220,7 @@ mutual
     | .objExt e ms => CoreShaped e ∧ CoreShapedMembers ms
     | .func ps body => CoreShapedParams ps ∧ CoreShaped body
     | .assert_ c m inner => CoreShaped c ∧ CoreShapedOpt m ∧ CoreShaped inner
-    | .builtin b args => exprsLength args = builtinArity b ∧ CoreShapedExprs args
+    | .builtin b args => builtinArityOk b (exprsLength args) ∧ CoreShapedExprs args
   def CoreShapedOpt : OptExpr → Prop
     | .none => True
     | .some e => CoreShaped e
@@ -246,14 +253,14 @@ mutual
 end
 
 /-- **C01 (evaluator model), full statement — NOT proved.**  No modelled Rust panic at all is
-    reachable for accepted programs of the shape the front end produces.  `_partial` above covers 7
+    reachable for accepted programs of the shape the front end produces.  `_partial` above covers 8
     of the model's panic messages; `C01_eval_set_done_assertion_never_fails` (RsjProps/C04Eval.lean)
     covers `set_done`.  Missing: the identifiers stored in values, environments and fields are in
     range ("bad thunk id", "bad function id", "attempted to access destroyed object" — needs a typing
     of values through every postcondition); the binding plan is consistent with the argument lists
     (three messages of the call code; RsjProofs/Bind.lean has the needed facts); the result kinds of
-    `manifest` / `equals` / `compare` tasks ("task did not return a string", …); a visible field
-    always has a thunk; and "partial_cmp of NaN", which needs facts about `Float` arithmetic that
+    `manifest` / `equals` / `compare` tasks ("task did not return a string", …); the sorted indices
+    of `std.sort` are in range; and "partial_cmp of NaN", which needs facts about `Float` arithmetic that
     Lean's opaque `Float` does not provide.  Without `CoreShaped` the statement is false:
     `std.length()` with no argument is accepted by `analyze` and ends in "builtin arity". -/
 def C01_eval_no_internal_error_full : Prop :=
